@@ -27,6 +27,12 @@ def occurrences(e, conds=(), icpt=False, swallowed=False, agg=False,
         e, k = ['r', e[1], e[2], e[3], e[4], e[3], e[4]], 'r'
     if k == 'w':      # whole rows / columns: the part inside the window
         e, k = ['r'] + e[1:7], 'r'
+    if k in ('u', 'x'):
+        # union: every area; intersection: the common cells only
+        from .expr import refs_of
+        for x in refs_of(e):
+            yield x, conds, icpt, swallowed, agg, weak
+        return
     if k in ('r', 'nm'):
         yield e, conds, icpt, swallowed, agg, weak
     elif k == 'op':
